@@ -115,3 +115,244 @@ def _copy_hook(models, it, v, node):
 
 
 A.HOOKS_COPY.append(_copy_hook)
+
+
+# ---------------------------------------------------------------------------------------------------------------------
+# pandas DataFrame / sklearn classifier as opaque values (MD3 skeleton, C19)
+def _df(it, t):
+    return SOpaque("DF", t)
+
+
+def df_len(it, v):
+    f = it.ctx.uf("df_len", it.ctx.sort("DF"), INT)
+    t = f(v.t)
+    it.ctx.fact(t >= 0, key=("dflen", t.sexpr()))
+    return t
+
+
+def _make_symbolic2(models, it, reg, ty, name, fresh):
+    ctx, run = it.ctx, it.run
+    if ty in ("DF", "Clf"):
+        srt = ctx.sort(ty)
+        return SOpaque(ty, z3.Const(name, srt) if not fresh else run.fresh(srt, name))
+    return NotImplemented
+
+
+HOOKS["make_symbolic"].append(_make_symbolic2)
+
+
+def _len2(models, it, v, o, node):
+    if isinstance(v, SOpaque) and v.sort == "DF":
+        return df_len(it, v)
+    if isinstance(v, SOpaque) and v.sort == "ColList":
+        t = it.ctx.uf("collist_len", it.ctx.sort("ColList"), INT)(v.t)
+        return t
+    return NotImplemented
+
+
+HOOKS["len"].append(_len2)
+
+
+def uf1(it, name, v, out):
+    f = it.ctx.uf(name, it.ctx.sort(v.sort), it.ctx.sort(out))
+    return SOpaque(out, f(v.t))
+
+
+OPAQUE_ATTRS[("DF", "columns")] = lambda models, it, base, node: uf1(it, "df_columns", base, "Cols")
+OPAQUE_ATTRS[("DF", "loc")] = lambda models, it, base, node: SOpaque("DFLoc", base.t)
+
+
+def _df_method(models, it, target, obj, name, args, kwargs, fr, node):
+    if isinstance(target, SOpaque):
+        if target.sort == "DF" and name == "to_numpy":
+            return uf1(it, "df_to_numpy", target, "NdO")
+        if target.sort == "Clf" and name == "predict":
+            f = it.ctx.uf("clf_predict", it.ctx.sort("Clf"), it.ctx.sort("DF"), it.ctx.sort("Pred"))
+            models.note(it, "opaque:classifier.predict (deterministic uninterpreted function)")
+            return SOpaque("Pred", f(target.t, args[0].t))
+    return NotImplemented
+
+
+HOOKS["method"].append(_df_method)
+
+
+def _df_getitem(models, it, base, idx, node):
+    if isinstance(base, SOpaque):
+        if base.sort == "NdO" and idx == 0:
+            return uf1(it, "ndo_row0", base, "Row")
+        if base.sort == "DF" and isinstance(idx, SOpaque) and idx.sort == "ColList":
+            f = it.ctx.uf("df_select", it.ctx.sort("DF"), it.ctx.sort("ColList"), it.ctx.sort("DF"))
+            r = SOpaque("DF", f(base.t, idx.t))
+            it.ctx.fact(df_len(it, r) == df_len(it, base), key=("df-select-len", r.t.sexpr()))
+            return r
+        if base.sort == "ColList" and isinstance(idx, int):
+            f = it.ctx.uf("collist_item", it.ctx.sort("ColList"), INT, it.ctx.sort("ColName"))
+            return SOpaque("ColName", f(base.t, z3.IntVal(idx)))
+        if base.sort == "DFLoc":
+            f = it.ctx.uf("df_loc_cols", it.ctx.sort("DF"), BOOL, it.ctx.sort("DF"))
+            flag = z3.BoolVal(True)
+            if isinstance(idx, tuple) and len(idx) == 2 and isinstance(idx[1], SOpaque) and idx[1].sort == "ColMask":
+                g = it.ctx.uf("df_loc_mask", it.ctx.sort("DF"), it.ctx.sort("ColMask"), it.ctx.sort("DF"))
+                r = SOpaque("DF", g(base.t, idx[1].t))
+                it.ctx.fact(df_len(it, r) == df_len(it, SOpaque("DF", base.t)), key=("df-loc-len", r.t.sexpr()))
+                return r
+    return NotImplemented
+
+
+HOOKS["getitem"].append(_df_getitem)
+
+
+def _list_hook(models, it, v, node):
+    if isinstance(v, SOpaque) and v.sort == "Cols":
+        return uf1(it, "cols_to_list", v, "ColList")
+    return NotImplemented
+
+
+HOOKS["list"].append(_list_hook)
+
+
+def _collist_binop(models, it, op, a, b, node):
+    import ast as _ast
+    if isinstance(op, _ast.Add) and isinstance(a, SOpaque) and isinstance(b, SOpaque) and a.sort == b.sort == "ColList":
+        f = it.ctx.uf("collist_concat", it.ctx.sort("ColList"), it.ctx.sort("ColList"), it.ctx.sort("ColList"))
+        return SOpaque("ColList", f(a.t, b.t))
+    return NotImplemented
+
+
+HOOKS["binop"].append(_collist_binop)
+
+
+def _cmp_cols(models, it, sop, a, b, node):
+    return NotImplemented
+
+
+def _install_pandas():
+    orig = Models.__init__
+
+    def b_set(self, it, args, kw, fr, node):
+        v = args[0]
+        if isinstance(v, SOpaque) and v.sort == "ColList":
+            return uf1(it, "collist_set", v, "ColSet")
+        raise Unsupported("set(%r)" % (v,), node)
+
+    def pd_concat(self, it, args, kw, fr, node):
+        parts = [it.run.unopt(p, "pd.concat operand") if isinstance(p, SOpt) else p for p in it.iter_concrete(args[0], node)]
+        if len(parts) != 2 or not all(isinstance(p, SOpaque) and p.sort == "DF" for p in parts):
+            raise Unsupported("pd.concat of %r" % (parts,), node)
+        f = it.ctx.uf("df_concat", it.ctx.sort("DF"), it.ctx.sort("DF"), it.ctx.sort("DF"))
+        r = SOpaque("DF", f(parts[0].t, parts[1].t))
+        it.ctx.fact(df_len(it, r) == df_len(it, parts[0]) + df_len(it, parts[1]), key=("concat-len", r.t.sexpr()))
+        self.note(it, "model:pd.concat (row count adds up; contents opaque)")
+        return r
+
+    def accuracy(self, it, args, kw, fr, node):
+        a, b = args
+        f = it.ctx.uf("accuracy_score", it.ctx.sort(a.sort), it.ctx.sort(b.sort), REAL)
+        t = f(a.t, b.t)
+        it.ctx.fact(z3.And(t >= 0, t <= 1), key=("acc-range", t.sexpr()))
+        self.note(it, "axiom:sklearn accuracy_score in [0, 1]")
+        return t
+
+    def new_init(self):
+        orig(self)
+        self.ext["builtins.set"] = b_set
+        self.ext["pandas.concat"] = pd_concat
+        self.ext["sklearn.metrics.accuracy_score"] = accuracy
+    Models.__init__ = new_init
+
+
+_install_pandas()
+
+
+def _colmask_cmp(models, it, sop, a, b, node):
+    return NotImplemented
+
+
+# X.columns != target_name  /  == target_name  -> a column mask (used inside .loc[:, mask])
+_orig_eq = X.Run.eq
+
+
+def _eq_with_cols(self, a, b):
+    if isinstance(a, SOpaque) and a.sort == "Cols" and (not isinstance(b, SOpaque) or b.sort == "ColName"):
+        f = self.ctx.uf("cols_eq_mask", self.ctx.sort("Cols"), self.ctx.sort("ColName"), self.ctx.sort("ColMask"))
+        nm = b.t if isinstance(b, SOpaque) else z3.Const("colname!%s" % (b,), self.ctx.sort("ColName"))
+        return SOpaque("ColMask", f(a.t, nm))
+    return _orig_eq(self, a, b)
+
+
+X.Run.eq = _eq_with_cols
+
+
+def _copy_df(models, it, v, node):
+    if isinstance(v, SOpaque) and v.sort in ("DF", "Clf"):
+        models.note(it, "model:copy of an opaque pandas / sklearn value (value semantics; aliasing not modelled)")
+        return v
+    return NotImplemented
+
+
+from .arrays import HOOKS_COPY
+HOOKS_COPY.append(_copy_df)
+_orig_not = None
+
+
+# spec vocabulary for MD3 (builds exactly the terms the code's calls produce)
+def _spec_margin_signal(self, e, fr):
+    selfv = self.ev(e.args[0], fr)
+    Xv = self.ev(e.args[1], fr)
+    fn = self.run.obj(selfv).fields["margin_calculation_function"]
+    row = _df_getitem(self.ctx.models, self, uf1(self, "df_to_numpy", Xv, "NdO"), 0, e)
+    clf = self.run.obj(selfv).fields["classifier"]
+    return self.ctx.models.call_uf(self, fn, [selfv, row, clf], {}, e)
+
+
+def _ref_cols(self, selfv):
+    o = self.run.obj(selfv)
+    fc = uf1(self, "cols_to_list", uf1(self, "df_columns", o.fields["reference_batch_features"], "Cols"), "ColList")
+    tc = uf1(self, "cols_to_list", uf1(self, "df_columns", o.fields["reference_batch_target"], "Cols"), "ColList")
+    return fc, tc
+
+
+def _spec_cols_mismatch(self, e, fr):
+    selfv = self.ev(e.args[0], fr)
+    s = self.ev(e.args[1], fr)
+    lab = uf1(self, "cols_to_list", uf1(self, "df_columns", s, "Cols"), "ColList")
+    fc, tc = _ref_cols(self, selfv)
+    ref = _collist_binop(self.ctx.models, self, __import__("ast").Add(), fc, tc, e)
+    ln = lambda v: _len2(self.ctx.models, self, v, None, e)
+    return OR(ln(lab) != ln(ref), NOT(uf1(self, "collist_set", lab, "ColSet").t == uf1(self, "collist_set", ref, "ColSet").t))
+
+
+def _spec_oracle_accuracy(self, e, fr):
+    """accuracy of the classifier on the completed oracle data (old oracle data + this sample)"""
+    selfv = self.ev(e.args[0], fr)
+    s = self.ev(e.args[1], fr)
+    old = fr.spec.old
+    oo = old.heap[selfv.oid] if old is not None else self.run.obj(selfv)
+    od = oo.fields["oracle_data"]
+    cur_heap = self.run.heap
+    if isinstance(od, SOpt):
+        f = self.ctx.uf("df_concat", self.ctx.sort("DF"), self.ctx.sort("DF"), self.ctx.sort("DF"))
+        full = z3.If(zbool(od.isnone), s.t, f(od.val.t, s.t))
+    elif od is None:
+        full = s.t
+    else:
+        f = self.ctx.uf("df_concat", self.ctx.sort("DF"), self.ctx.sort("DF"), self.ctx.sort("DF"))
+        full = f(od.t, s.t)
+    fullv = SOpaque("DF", full)
+    # column lists of the *old* reference
+    self.run.heap = old.heap if old is not None else cur_heap
+    try:
+        fc, tc = _ref_cols(self, selfv)
+        clf = self.run.obj(selfv).fields["classifier"]
+    finally:
+        self.run.heap = cur_heap
+    sel = self.ctx.uf("df_select", self.ctx.sort("DF"), self.ctx.sort("ColList"), self.ctx.sort("DF"))
+    xt, yt = sel(full, fc.t), sel(full, tc.t)
+    pred = self.ctx.uf("clf_predict", self.ctx.sort("Clf"), self.ctx.sort("DF"), self.ctx.sort("Pred"))(clf.t, xt)
+    acc = self.ctx.uf("accuracy_score", self.ctx.sort("DF"), self.ctx.sort("Pred"), REAL)(yt, pred)
+    return acc
+
+
+X.Interp.spec_margin_signal = _spec_margin_signal
+X.Interp.spec_oracle_columns_mismatch = _spec_cols_mismatch
+X.Interp.spec_oracle_accuracy = _spec_oracle_accuracy
